@@ -26,6 +26,10 @@ MUST_REACH = ["restarts", "idempotence_checks", "atomic_style", "tilted_cells", 
 def generate(rng, tier):
     w = {"copy": 1, "delete": 2, "delete_touching": 1, "pop": 0.5, "translate": 1, "extend": 3, "subset": 0.5, "assign": 3, "restart": 3}
     spec = machine.gen_world(rng, nobj=(1, 2), nops=(0, 3), weights=w, restartable=True, cell_prob=0.9, max_atoms=25, empty_prob=0.0)
+    if rng.random() < 0.15:
+        # coordinates of hundreds or thousands of length units, of either sign (an unwrapped trajectory frame, a large box)
+        spec["ops"].append({"op": "translate", "obj": rng.randrange(len(spec["objects"])),
+                            "delta": [rng.choice([0.0, -150.25, 1234.5, -99.9999995, 999.9999996, -12345.678901]) for _ in range(3)]})
     spec["cases"] = []
     for _ in range(rng.randint(1, 3)):
         via = rng.choice(["path", "file", "save_lmpdat"])
